@@ -141,6 +141,10 @@ _add('a:48;2;1;2;3', 'aset', '48;2;1;2;3', ['48;2;1;2;3'])
 _add('v:1;31', 'verb', '[1;31', ['1;31'], cls='multi')
 _add('a:4;34', 'aset', '4;34', ['4;34'], cls='multi')
 _add('a:38;5;200;1', 'aset', '38;5;200;1', ['38;5;200;1'], cls='multi')
+# several groups in one setting, the FIRST of which clears an effect (what the setting 'is' must not be judged by its first code)
+_add('v:22;31', 'verb', '[22;31', ['22;31'], cls='multi')
+_add('a:39;1', 'aset', '39;1', ['39;1'], cls='multi')
+_add('a:24;4;32', 'aset', '24;4;32', ['24;4;32'], cls='multi')
 _add('v:0', 'verb', '[0', ['0'], cls='reset')
 _add('a:0;1', 'aset', '0;1', ['0;1'], cls='reset')
 _add('v:56', 'verb', '[56', ['56'], cls='unknown')
